@@ -8,13 +8,19 @@ NOTE = ("Trusted: go/ssa translation (x/tools v0.29.0), the engine's SSA semanti
         "Claim is bounded: every input inside the per-harness bounds recorded in the evidence; nothing outside them. ")
 
 claimed = {
+ "C01": dict(text="Bounded model checking of the script interpreter's leaf predicates against transcriptions of Bitcoin Core's: script-number decode/encode, CastToBool, "
+                  "BIP66 DER / low-S / hash-type gates, public-key encoding gates, minimal-push rule, opcode fetch, push-only, witness-program and P2SH templates, BIP112 CheckSequence; "
+                  "every byte string up to the per-harness length bound, all flag subsets.",
+             ref="6/C01", note=NOTE + "The reference predicates (ref_* in harness/lib/script) are hand transcriptions of Core's and are part of the trusted base. "),
+ "C15": dict(text="Bounded model checking of segwit address coding: encode->decode identity for every witness version / legal program length / program; refusal of illegal destinations; "
+                  "decode->re-encode identity and BIP173/BIP350 rule conformance for every string of the tier's lengths (checksum reasoning by GF(2) elimination in the engine, everything else by z3).",
+             ref="6/C15", note=NOTE + "The BCH checksum constraint is kept in solved form by the engine's GF(2) elimination; models are still produced and checked by the solver. "),
  "C09": dict(text="Bounded model checking of the wire codecs: CompactSize family over all uint64 / all byte strings up to 9 bytes; "
                   "every path's assertions decided by z3 for all inputs of that path; counterexamples replayed on the native build.",
              ref="6/C09", note=NOTE),
 }
 
 na = {
- "C01": "not yet built in this revision (planned: DESIGN.md 6/C01)",
  "C02": "not yet built in this revision (planned: DESIGN.md 6/C02)",
  "C03": "not yet built in this revision (planned: DESIGN.md 6/C03)",
  "C04": "not yet built in this revision (planned: DESIGN.md 6/C04)",
@@ -27,7 +33,6 @@ na = {
  "C12": "invariant over histories of five mutually referencing global pointer maps; needs an unbounded symbolic heap (DESIGN.md 6/C12)",
  "C13": "not yet built in this revision (planned: DESIGN.md 6/C13)",
  "C14": "not yet built in this revision (planned: DESIGN.md 6/C14)",
- "C15": "not yet built in this revision (planned: DESIGN.md 6/C15)",
  "C16": "real-file I/O with a background writer; snappy resolves to assembly on amd64 (no SSA) (DESIGN.md 6/C16)",
  "C17": "maps of maps driven by callbacks from parallel UTXO workers over block histories (DESIGN.md 6/C17)",
  "C18": "not yet built in this revision (planned: DESIGN.md 6/C18)",
